@@ -131,7 +131,7 @@ def expected(m, shape, sfx, value):
         b = isa.implied(m)
         return ("undefined",) if b is None or sfx else ("imp", b)
     w = {"b": 1, "w": 2, "l": 3}[sfx] if sfx else infer_width(value)
-    if m in isa.BRANCHES8 and prefix == "" and inner is None and outer is None:
+    if (m.lower(), "rel8") in isa.BY_KEY and prefix == "" and inner is None and outer is None:
         return ("branch",)
     if prefix in ("", "#") and inner and outer:
         return ("undefined",)
